@@ -92,6 +92,7 @@ func parseOp(s string) (op, error) {
 type script struct {
 	snaps, quiet, override bool
 	ops                    []op
+	skipped                int // operations not executed because they would break a caller obligation
 }
 
 func parseScript(text string) (*script, error) {
@@ -184,6 +185,7 @@ func runScript(sc *script) (msg string) {
 	}()
 	for _, o := range sc.ops {
 		if !mc.valid(&o) {
+			sc.skipped++
 			continue
 		}
 		mc.exec(o)
@@ -223,7 +225,7 @@ func TestScript(t *testing.T) {
 	for changed := true; changed; {
 		changed = false
 		for i := 0; i < len(sc.ops); i++ {
-			cand := &script{sc.snaps, sc.quiet, sc.override, append(append([]op{}, sc.ops[:i]...), sc.ops[i+1:]...)}
+			cand := &script{sc.snaps, sc.quiet, sc.override, append(append([]op{}, sc.ops[:i]...), sc.ops[i+1:]...), 0}
 			if m := runScript(cand); strings.Contains(m, "key="+key) {
 				sc, msg, changed = cand, m, true
 				i--
